@@ -14,7 +14,7 @@ RULE = ("worlds from dsim.world (1-8 stations, chains of sessions per station wi
         "station reuse or >=1 period with >=3 events; distinct = distinct per-period history signature "
         "<event kinds, invoked?, fault, #connected, #charging>")
 PROBES = ["back_to_back", "pileup3", "recompute_only_period", "resumed", "stay1", "idle_prefix", "crash_last_period",
-          "constraint_free_sorted", "custom_event_in_run", "resume_json", "stochastic_network_world", "stochastic_json_resume", "second_life"]
+          "constraint_free_sorted", "custom_event_in_run", "resume_json", "stochastic_network_world", "stochastic_json_resume", "second_life", "duplicate_session_id_world"]
 FAULT_DIMENSION = "scheduler crash at arbitrary calls (incl. last period), resumed by rerun or via a JSON save/load of the simulator"
 ASSUMPTIONS = ["sessions of one station do not overlap (generator guarantees it)",
                "plug-in event timestamp == ev.arrival",
@@ -36,7 +36,20 @@ def gen(rs, tier):
     P = PROFILE
     if tier == "thorough" and rs % 10 == 0:
         P = dict(P, stations=(4, 12), horizon=(20, 120), sessions_cap=30)
-    return world.gen_world(rs, P)
+    sc = world.gen_world(rs, P)
+    r = world.sub(rs, "dupid")
+    if r.random() < 0.12:
+        # two sessions on DIFFERENT stations that overlap in time carry the same session id (ids taken from a vehicle tag, two
+        # data pulls merged ...): plug / unplug are still per station
+        pairs = [(a, b) for a in sc["sessions"] for b in sc["sessions"]
+                 if a["station"] != b["station"] and a["arrival"] < b["arrival"] < a["departure"]]
+        if pairs:
+            a, b = r.choice(pairs)
+            b["session_id"] = a["session_id"]
+            sc["dup_session_id"] = a["session_id"]
+            sc["faults"] = [f for f in sc["faults"] if f.get("resume", "rerun") == "rerun"]
+            sc.pop("second_life", None)
+    return sc
 
 
 def check(sc):
@@ -61,6 +74,7 @@ def check(sc):
     out.probe("pileup3", pile)
     out.probe("recompute_only_period", sum(1 for t, l in ev.items() if all(k == "Recompute" for k, _ in l)))
     out.probe("second_life", tr.fault_counts.get("second_life", 0))
+    out.probe("duplicate_session_id_world", 1 if sc.get("dup_session_id") else 0)
     out.probe("resumed", len(tr.resumes))
     out.probe("resume_json", sum(1 for r in tr.resumes if r["mode"] != "rerun"))
     out.probe("custom_event_in_run", sum(1 for e in sc["extra_events"] if e.get("type") == "Event"))
@@ -86,7 +100,9 @@ def check(sc):
             out.add("C01/station_not_vacated", sid)
             break
     # 2. event history order
-    hist = [(e.timestamp, e.event_type or "Event", getattr(getattr(e, "ev", None), "session_id", None)) for e in sim.event_history]
+    hist4 = [(e.timestamp, e.event_type or "Event", getattr(getattr(e, "ev", None), "session_id", None),
+              getattr(getattr(e, "ev", None), "station_id", None)) for e in sim.event_history]
+    hist = [h[:3] for h in hist4]
     keys = [(ts, PREC.get(k, 99)) for ts, k, _ in hist]
     if keys != sorted(keys):
         i = next(i for i in range(1, len(keys)) if keys[i] < keys[i - 1])
@@ -96,14 +112,15 @@ def check(sc):
         out.add("C01/history_multiset", "history %s != scenario events %s" % (hist[:12], want[:12]))
     # 3. exactly one plugin / unplug per session at the right time
     cnt = {}
-    for ts, k, s in hist:
+    for ts, k, s, st_ in hist4:
         if k in ("Plugin", "Unplug"):
-            cnt.setdefault((s, k), []).append(ts)
-    for sid, s in sess.items():
-        if cnt.get((sid, "Plugin")) != [s["arrival"]]:
-            out.add("C01/plugin_count", "%s plugged at %s, arrival %d" % (sid, cnt.get((sid, "Plugin")), s["arrival"]))
-        if cnt.get((sid, "Unplug")) != [s["departure"]]:
-            out.add("C01/unplug_count", "%s unplugged at %s, departure %d" % (sid, cnt.get((sid, "Unplug")), s["departure"]))
+            cnt.setdefault((s, None if stoch else st_, k), []).append(ts)
+    for s in sc["sessions"]:
+        sid, key_st = s["session_id"], (None if stoch else s["station"])
+        if cnt.get((sid, key_st, "Plugin")) != [s["arrival"]]:
+            out.add("C01/plugin_count", "%s@%s plugged at %s, arrival %d" % (sid, s["station"], cnt.get((sid, key_st, "Plugin")), s["arrival"]))
+        if cnt.get((sid, key_st, "Unplug")) != [s["departure"]]:
+            out.add("C01/unplug_count", "%s@%s unplugged at %s, departure %d" % (sid, s["station"], cnt.get((sid, key_st, "Unplug")), s["departure"]))
     # 4. occupancy at the end of every period
     if len(tr.periods) != last_t + 1 or [p["t"] for p in tr.periods] != list(range(last_t + 1)):
         out.add("C01/periods", "periods executed %s expected 0..%d" % ([p["t"] for p in tr.periods][:20], last_t))
@@ -129,7 +146,7 @@ def check(sc):
             continue
         t = c["t"]
         for s in c["sessions"]:
-            m = sess.get(s["session_id"])
+            m = next((x for x in sc["sessions"] if x["session_id"] == s["session_id"] and (stoch or x["station"] == s["station_id"])), None)
             if m is None or not (m["arrival"] <= t < m["departure"]) or (s["station_id"] != m["station"] and not stoch):
                 out.add("C01/party_saw_unconnected", "t=%d saw %s" % (t, s))
     # uncontrolled + unfinished demand: first connected period charges (connected EV *can* receive current)
